@@ -259,6 +259,29 @@ func (x *Exec) stringConst(s string) *Term {
 	return IntLit(id)
 }
 
+// strByID recovers the Go string a string-constant term stands for.
+func (x *Exec) strByID(t *Term) (string, bool) {
+	if StringTheory {
+		if t.IsAtom() && strings.HasPrefix(t.Op, "\"") {
+			return strings.Trim(t.Op, "\""), true
+		}
+		return "", false
+	}
+	n, ok := t.IntVal()
+	if !ok {
+		return "", false
+	}
+	if n == 0 {
+		return "", true
+	}
+	for s, id := range x.strIDs {
+		if id == n {
+			return s, true
+		}
+	}
+	return "", false
+}
+
 func (x *Exec) globalPtr(v *types.Var) *PtrVal {
 	c, ok := x.globals[v]
 	if !ok {
@@ -1103,7 +1126,12 @@ func (x *Exec) binop(s *State, op token.Token, a, b Value, operandType types.Typ
 	}
 	if isString || isFloat {
 		x.Ctx.DeclareFunc("opaque."+opName(op), []string{SInt, SInt}, resultSort(op))
-		return S(App("opaque."+opName(op), resultSort(op), ta, tb))
+		r := App("opaque."+opName(op), resultSort(op), ta, tb)
+		if isString && op == token.ADD {
+			// opaque strings: "" is 0; a concatenation is empty only if both parts are
+			s.Assume(Implies(Or(Neq(ta, IntLit(0)), Neq(tb, IntLit(0))), Neq(r, IntLit(0))))
+		}
+		return S(r)
 	}
 	switch op {
 	case token.ADD:
